@@ -625,7 +625,12 @@ def oracle(sim: Sim, plan: dict) -> list[dict]:
             v("C08.running_after_exit", "late", f"service task {name} still active after its owning context {c} was left: {late[0][4]}")
         if not s.get("svc_body_end") and st and not teardown_cancelled(c):
             v("C08.running_after_exit", "never_ended", f"service task {name} never ended although its owning context {c} was left")
+        if body.get("cleanup") and s.get("svc_cancelled"):
+            sim.probe("svc_cancelled_with_cleanup")
+        if s.get("own_td_start"):
+            sim.probe("svc_own_context_teardown")
         if teardown_cancelled(c):
+            sim.probe("teardown_itself_cancelled")
             if len(s.get("act_begin", [])) > 1:
                 v("C08.action", "twice", f"teardown action of {name} invoked {len(s['act_begin'])} times")
             continue
@@ -1125,4 +1130,4 @@ def gen(rng: random.Random, tier: str, prop: str) -> dict:
     return plan
 
 
-SIMPLEST = {"action": "cancel", "how": "soon"}
+SIMPLEST = {"action": "cancel"}
